@@ -2,6 +2,7 @@ package lang
 
 import (
 	"fmt"
+	"sort"
 	"strconv"
 	"strings"
 )
@@ -175,6 +176,17 @@ func alias(x, y []*Cell) bool {
 	return cap(x) > 0 && cap(y) > 0 && &x[0:cap(x)][cap(x)-1] == &y[0:cap(y)][cap(y)-1]
 }
 
+// the keys of an object in ascending byte order, so that printing and
+// iterating an object don't depend on go's randomised map order
+func sortedKeys(obj map[string]*Cell) []string {
+	keys := make([]string, 0, len(obj))
+	for key := range obj {
+		keys = append(keys, key)
+	}
+	sort.Strings(keys)
+	return keys
+}
+
 func isSame(a *Value, b *Value) bool {
 	if a.Tag != b.Tag {
 		return false
@@ -226,8 +238,8 @@ func (v *Value) prettyStringInteral(rootValues []*Value, quote bool, checkCircul
 	case ValueObj:
 		var sb strings.Builder
 		sb.WriteByte('{')
-		index := 0
-		for key, value := range *v.Obj {
+		for index, key := range sortedKeys(*v.Obj) {
+			value := (*v.Obj)[key]
 			if index > 0 {
 				sb.WriteString(", ")
 			}
@@ -235,7 +247,6 @@ func (v *Value) prettyStringInteral(rootValues []*Value, quote bool, checkCircul
 			sb.WriteString("\"" + key + "\"")
 			sb.WriteString(": ")
 			sb.WriteString(value.Value.prettyStringInteral(append(rootValues, v), true, true))
-			index++
 		}
 		sb.WriteByte('}')
 		return sb.String()
